@@ -44,8 +44,10 @@ def scratch(prefix="qsv-"):
     return tempfile.mkdtemp(prefix=prefix, dir=base)
 
 
-def _java_cmd(heap=None, deque=False, tmpdir=None):
+def _java_cmd(heap=None, deque=False, tmpdir=None, stack=None):
     cmd = ["java", "-XX:+UseParallelGC"]
+    if stack:
+        cmd.append("-Xss%s" % stack)                  # deep recursion over sequences of several hundred elements
     if tmpdir:
         cmd.append("-Djava.io.tmpdir=%s" % tmpdir)     # TLC leaves an empty tlc-<n> directory per run: keep it in the scratch dir
     if heap:
@@ -92,11 +94,11 @@ _RE_SIMGEN = re.compile(r"The number of states generated: (\d+)")
 
 def run(workdir, module, cfg, workers=16, simulate=None, depth=None, seed=None, coverage=False,
         dump_dot=None, deadlock_off=False, timeout=3600, heap=None, env=None, deque=False,
-        extra_args=None):
+        extra_args=None, stack=None):
     """Run TLC on workdir/module.tla with workdir/cfg.  Returns Result; raises TLCError
     for machinery failures."""
     meta = os.path.join(workdir, "meta-%d" % int(time.time() * 1e6))
-    cmd = _java_cmd(heap, deque, workdir) + ["-workers", str(workers), "-metadir", meta, "-noGenerateSpecTE",
+    cmd = _java_cmd(heap, deque, workdir, stack) + ["-workers", str(workers), "-metadir", meta, "-noGenerateSpecTE",
                                     "-config", cfg]
     if simulate:
         cmd += ["-simulate", simulate]
